@@ -14,30 +14,9 @@ Two small state machines are modelled as well: clamps/links on the optimiser's g
 -/
 import CBV.Model.Common
 import CBV.Gen.Tables
+import CBV.Model.C20Syntax
 
 namespace CBV.C20
-
-/-- outcome of a guarded call: accepted, or rejected with an exception class -/
-inductive Out where
-  | accept
-  | reject (cls : String)
-  deriving DecidableEq, Repr, Inhabited
-
-def Out.isReject : Out → Bool
-  | .accept => false
-  | .reject _ => true
-
-def Out.toStr : Out → String
-  | .accept => "accept"
-  | .reject c => "reject:" ++ c
-
-/-- `abs(x)` as numpy / python compute it -/
-def absR (x : Rat) : Rat := if x < 0 then -x else x
-
-/-- a python sequence of `if cond: raise Cls` statements: the first failing check wins -/
-def checks : List (Bool × String) → Out
-  | [] => .accept
-  | (b, cls) :: rest => if b then .reject cls else checks rest
 
 /-! ### look-ups in the generated tables -/
 
@@ -599,6 +578,331 @@ def handleCall (args : List String) : Option String :=
       else none
   | _ => none
 
+/-! ### the guards as syntax: what the model says the source says (round 6)
+
+`modelGuardTable` is the model's reading of the explicit guards of every covered entry point, as syntax
+(`CBV.C20.Stmt`); the translator regenerates the same table from the current source into `CBV.Gen.c20Guards`, and
+`Props/C20.lean` proves that the two are the same table and that evaluating it on the arguments of a call gives the
+outcome of `run` (with the rejections that come from implicit checks — look-ups, divisions, numpy — spelled out). -/
+
+def G_faceShape : List Stmt := [
+    .s (.raise "FaceCreationError" (.not (.shapeeq "points" [4, 3])))]
+
+def G_faceEdges : List Stmt := [
+    .s (.raise "FaceCreationError" (.and (.flag "edges is not None") (.cmp .ne (.len "edges") (.int 4))))]
+
+def G_faceCoplanar : List Stmt := [
+    .s (.raise "FaceCreationError" (.and (.flag "check_coplanar") (.cmp .gt (.abs (.dot (.vsub (.vvar "points[1]") (.vvar "points[0]")) (.cross (.vsub (.vvar "points[3]") (.vvar "points[0]")) (.vsub (.vvar "points[2]") (.vvar "points[0]"))))) .tol)))]
+
+def G_faceAddEdge : List Stmt := [
+    .s (.raise "FaceCreationError" (.or (.cmp .lt (.var "corner") (.int 0)) (.cmp .gt (.var "corner") (.int 3))))]
+
+def G_faceProjectEdge : List Stmt := [
+    .s (.raise "FaceCreationError" (.or (.cmp .lt (.var "corner") (.int 0)) (.cmp .gt (.var "corner") (.int 3))))]
+
+def G_faceRemoveEdges : List Stmt := [
+    .each "corner" "corners" [.raise "FaceCreationError" (.or (.cmp .lt (.var "corner") (.int 0)) (.cmp .gt (.var "corner") (.int 3))), .mutate "self.edges"]]
+
+def G_pointShape : List Stmt := [
+    .s (.mutate "self.position"),
+    .s (.raise "PointCreationError" (.not (.shapeeq "position" [3])))]
+
+def G_arrayShape : List Stmt := [
+    .s (.mutate "self.points"),
+    .s (.raise "ArrayCreationError" (.cmp .ne (.dim "points" 1) (.int 3))),
+    .s (.raise "ArrayCreationError" (.cmp .le (.dim "points" 0) (.int 1)))]
+
+def G_sideVertices : List Stmt := [
+    .s (.raise "SideCreationError" (.cmp .ne (.len "vertices") (.int 8)))]
+
+def G_opAddSideEdge : List Stmt := [
+    .s (.raise "EdgeCreationError" (.or (.cmp .lt (.var "corner_idx") (.int 0)) (.cmp .gt (.var "corner_idx") (.int 3))))]
+
+def G_opProjectCorner : List Stmt := [
+    .s (.raise "ValueError" (.or (.cmp .lt (.var "corner") (.int 0)) (.cmp .gt (.var "corner") (.int 7))))]
+
+def G_opProjectEdge : List Stmt := [
+    .s (.raise "ValueError" (.not (.and (.and (.cmp .le (.int 0) (.var "corner_1")) (.cmp .lt (.var "corner_1") (.int 8))) (.and (.cmp .le (.int 0) (.var "corner_2")) (.cmp .lt (.var "corner_2") (.int 8))))))]
+
+def G_opUnchop : List Stmt := [
+    .s (.raise "KeyError" (.not (.iin (.var "axis") [0, 1, 2])))]
+
+def G_opSide : List Stmt := [
+    .s (.ret (.seq "side" "bottom")),
+    .s (.ret (.seq "side" "top")),
+    .s (.raise "RuntimeError" (.not (.sin "side" ["front", "right", "back", "left"])))]
+
+def G_fromSeries : List Stmt := [
+    .s (.raise "ValueError" (.cmp .lt (.len "faces") (.int 2)))]
+
+def G_blockAddEdge : List Stmt := [
+    .s (.raise "ValueError" (.not (.and (.and (.cmp .le (.int 0) (.var "corner_1")) (.cmp .lt (.var "corner_1") (.int 8))) (.and (.cmp .le (.int 0) (.var "corner_2")) (.cmp .lt (.var "corner_2") (.int 8))))))]
+
+def G_frameAddBeam : List Stmt := [
+    .s (.raise "ValueError" (.not (.pairin (.var "corner_1") (.var "corner_2") [(0, 1), (2, 3), (6, 7), (4, 5), (0, 3), (1, 2), (5, 6), (4, 7), (0, 4), (1, 5), (2, 6), (3, 7)])))]
+
+def G_projectLabels : List Stmt := [
+    .s (.mutate "self.label"),
+    .s (.raise "EdgeCreationError" (.not (.and (.cmp .lt (.int 0) (.len "label")) (.cmp .lt (.len "label") (.int 3)))))]
+
+def G_projectAddLabel : List Stmt := [
+    .s (.mutate "self.label"),
+    .s (.mutate "self.label"),
+    .s (.raise "EdgeCreationError" (.not (.and (.cmp .lt (.int 0) (.len "self.label")) (.cmp .lt (.len "self.label") (.int 3)))))]
+
+def G_lengthRatio : List Stmt := [
+    .s (.raise "ValueError" (.not (.and (.cmp .lt (.int 0) (.var "chop.length_ratio")) (.cmp .le (.var "chop.length_ratio") (.int 1)))))]
+
+def G_annulus : List Stmt := [
+    .s (.raise "AnnulusCreationError" (.cmp .lt (.var "inner_radius") (.int 0))),
+    .s (.mutate "self.core"),
+    .s (.mutate "self.shell"),
+    .s (.raise "AnnulusCreationError" (.cmp .lt (.sub (.var "self.outer_radius") (.var "self.inner_radius")) .tol)),
+    .s (.raise "AnnulusCreationError" (.cmp .gt (.abs (.dot (.unit (.vvar "normal")) (.vsub (.vvar "outer_radius_point") (.vvar "center_point")))) .tol))]
+
+def G_cylinder : List Stmt := [
+    .s (.raise "CylinderCreationError" (.cmp .gt (.abs (.dot (.vsub (.vvar "axis_point_2") (.vvar "axis_point_1")) (.vsub (.vvar "radius_point_1") (.vvar "axis_point_1")))) .tol))]
+
+def G_frustum : List Stmt := [
+    .s (.raise "FrustumCreationError" (.cmp .gt (.abs (.dot (.vsub (.vvar "axis_point_2") (.vvar "axis_point_1")) (.vsub (.vvar "radius_point_1") (.vvar "axis_point_1")))) .tol))]
+
+def G_chainCylinder : List Stmt := [
+    .s (.raise "CylinderCreationError" (.cmp .lt (.var "length") (.int 0)))]
+
+def G_chainFrustum : List Stmt := [
+    .s (.raise "FrustumCreationError" (.cmp .lt (.var "length") (.int 0)))]
+
+def G_chainRing : List Stmt := [
+    .s (.raise "ExtrudedRingCreationError" (.cmp .lt (.var "length") (.int 0)))]
+
+def G_ringContract : List Stmt := [
+    .s (.raise "ExtrudedRingCreationError" (.cmp .le (.var "inner_radius") (.int 0))),
+    .s (.raise "ExtrudedRingCreationError" (.cmp .lt (.sub (.var "source.sketch_1.inner_radius") (.var "inner_radius")) .tol))]
+
+def G_cylinderFill : List Stmt := [
+    .s (.raise "CylinderCreationError" (.cmp .ne (.var "source.sketch_1.n_segments") (.int 8)))]
+
+def G_loftedShape : List Stmt := [
+    .s (.raise "ShapeCreationError" (.cmp .ne (.var "len(sketch_1.faces)") (.var "len(sketch_2.faces)"))),
+    .s (.raise "ShapeCreationError" (.and (.not (.not (.flag "sketch_mid is not None"))) (.flag "some mid sketch differs")))]
+
+def G_stackSlice : List Stmt := [
+    .s (.raise "ValueError" (.not (.iin (.var "axis") [0, 1, 2]))),
+    .s (.raise "ValueError" (.cmp .lt (.var "index") (.int 0)))]
+
+def G_curveParam : List Stmt := [
+    .s (.raise "ValueError" (.not (.and (.cmp .le (.var "self.bounds[0]") (.var "param")) (.cmp .le (.var "param") (.var "self.bounds[1]")))))]
+
+def G_polylineShape : List Stmt := [
+    .s (.raise "ValueError" (.or (.cmp .ne (.len "np.shape(points)") (.int 2)) (.cmp .ne (.dim "points" 1) (.int 3)))),
+    .s (.raise "ValueError" (.cmp .lt (.dim "points" 0) (.int 2)))]
+
+def G_polarCartesian : List Stmt := [
+    .s (.raise "ValueError" (.not (.iin (.var "direction") [-1, 1]))),
+    .s (.raise "ValueError" (.not (.sin "axis" ["x", "z"])))]
+
+def G_polarPolar : List Stmt := [
+    .s (.raise "ValueError" (.not (.sin "axis" ["x", "z"])))]
+
+def G_rotationLink : List Stmt := [
+    .s (.mutate "self.origin"),
+    .s (.mutate "self.axis"),
+    .s (.mutate "self.orig_leader_radius"),
+    .s (.mutate "self.orig_follower_pos"),
+    .s (.raise "ValueError" (.cmp .lt (.norm (.vvar "leader radius vector")) .tol))]
+
+def G_elbowChain : List Stmt := [
+    .s (.raise "ElbowCreationError" (.not (.flag "isinstance(source.sketch_1, Disk)")))]
+
+def G_meshGrade : List Stmt := [
+    .s (.raise "RuntimeError" (.not (.flag "self.is_assembled")))]
+
+def G_meshBackport : List Stmt := [
+    .s (.raise "RuntimeError" (.not (.flag "self.is_assembled")))]
+
+def G_junctionAddClamp : List Stmt := [
+    .s (.raise "ClampExistsError" (.flag "self.clamp is not None"))]
+
+def G_gridAddLink : List Stmt := [
+    .s (.raise "InvalidLinkError" (.cmp .eq (.var "leader_index") (.int (-1)))),
+    .s (.raise "InvalidLinkError" (.cmp .eq (.var "follower_index") (.int (-1)))),
+    .s (.raise "InvalidLinkError" (.cmp .eq (.var "leader_index") (.var "follower_index")))]
+
+def modelGuardTable : List (String × List Stmt) := [
+  ("faceShape", G_faceShape),
+  ("faceEdges", G_faceEdges),
+  ("faceCoplanar", G_faceCoplanar),
+  ("faceAddEdge", G_faceAddEdge),
+  ("faceProjectEdge", G_faceProjectEdge),
+  ("faceRemoveEdges", G_faceRemoveEdges),
+  ("pointShape", G_pointShape),
+  ("arrayShape", G_arrayShape),
+  ("sideVertices", G_sideVertices),
+  ("opAddSideEdge", G_opAddSideEdge),
+  ("opProjectCorner", G_opProjectCorner),
+  ("opProjectEdge", G_opProjectEdge),
+  ("opUnchop", G_opUnchop),
+  ("opSide", G_opSide),
+  ("fromSeries", G_fromSeries),
+  ("blockAddEdge", G_blockAddEdge),
+  ("frameAddBeam", G_frameAddBeam),
+  ("projectLabels", G_projectLabels),
+  ("projectAddLabel", G_projectAddLabel),
+  ("lengthRatio", G_lengthRatio),
+  ("annulus", G_annulus),
+  ("cylinder", G_cylinder),
+  ("frustum", G_frustum),
+  ("chainCylinder", G_chainCylinder),
+  ("chainFrustum", G_chainFrustum),
+  ("chainRing", G_chainRing),
+  ("ringContract", G_ringContract),
+  ("cylinderFill", G_cylinderFill),
+  ("loftedShape", G_loftedShape),
+  ("stackSlice", G_stackSlice),
+  ("curveParam", G_curveParam),
+  ("polylineShape", G_polylineShape),
+  ("polarCartesian", G_polarCartesian),
+  ("polarPolar", G_polarPolar),
+  ("rotationLink", G_rotationLink),
+  ("elbowChain", G_elbowChain),
+  ("meshGrade", G_meshGrade),
+  ("meshBackport", G_meshBackport),
+  ("junctionAddClamp", G_junctionAddClamp),
+  ("gridAddLink", G_gridAddLink)]
+
+def modelGuards (entry : String) : List Stmt := (modelGuardTable.lookup entry).getD []
+
+/-- the guards of an entry point as the translator found them in the source (empty when the rows do not decode) -/
+def genGuards (entry : String) : List Stmt := ((CBV.Gen.c20Guards.lookup entry).bind decode).getD []
+
+/-- `np.shape` of the nested list the harness builds for the sizes `dims`: nothing is known below an empty level -/
+def pyShape : List Nat → List Nat
+  | [] => []
+  | 0 :: _ => [0]
+  | d :: r => d :: pyShape r
+
+/-- the entry point(s) of the source a call of the catalogue goes through (`opChop` has no explicit guard) -/
+def entryOf : Call → Option String
+  | .faceShape _ _ => some "faceShape"
+  | .faceEdges _ => some "faceEdges"
+  | .faceCoplanar _ _ _ _ => some "faceCoplanar"
+  | .faceAddEdge _ => some "faceAddEdge"
+  | .faceProjectEdge _ => some "faceProjectEdge"
+  | .faceRemoveEdges _ => some "faceRemoveEdges"
+  | .pointShape _ => some "pointShape"
+  | .arrayShape _ _ => some "arrayShape"
+  | .sideVertices _ => some "sideVertices"
+  | .opAddSideEdge _ => some "opAddSideEdge"
+  | .opProjectCorner _ => some "opProjectCorner"
+  | .opProjectEdge _ _ => some "opProjectEdge"
+  | .opChop _ => none
+  | .opUnchop _ => some "opUnchop"
+  | .opSide _ => some "opSide"
+  | .fromSeries _ => some "fromSeries"
+  | .blockAddEdge _ _ => some "blockAddEdge"
+  | .frameAddBeam _ _ => some "frameAddBeam"
+  | .projectLabels _ => some "projectLabels"
+  | .projectAddLabel _ _ => some "projectAddLabel"
+  | .lengthRatio _ => some "lengthRatio"
+  | .annulus _ _ _ _ _ => some "annulus"
+  | .cylinder _ _ _ => some "cylinder"
+  | .frustum _ _ _ => some "frustum"
+  | .chain 0 _ => some "chainCylinder"
+  | .chain 1 _ => some "chainFrustum"
+  | .chain _ _ => some "chainRing"
+  | .ringContract _ _ => some "ringContract"
+  | .cylinderFill _ => some "cylinderFill"
+  | .loftedShape _ _ _ => some "loftedShape"
+  | .stackSlice _ _ _ _ _ => some "stackSlice"
+  | .curveParam _ _ _ => some "curveParam"
+  | .polylineShape _ => some "polylineShape"
+  | .polarArgs _ _ => some "polarCartesian"
+  | .rotationLink _ _ _ => some "rotationLink"
+  | .elbowChain _ => some "elbowChain"
+
+def nm (name : String) (x : Rat) : String → Rat := fun n => if n == name then x else 0
+def nm2 (n1 : String) (x1 : Rat) (n2 : String) (x2 : Rat) : String → Rat :=
+  fun n => if n == n1 then x1 else if n == n2 then x2 else 0
+
+/-- `point - origin - dot(point - origin, â) â` with `â = axis / |axis|` (`RotationLink._get_radius`) -/
+def radiusVector (rt : Rat → Rat) (leader origin axis : V3) : V3 :=
+  let ah := V3.smul (1 / rt (V3.norm2 axis)) axis
+  (leader - origin) - V3.smul (V3.dot (leader - origin) ah) ah
+
+/-- the values of the names that occur in the guards of the entry point of a call, under the python names -/
+def envOf (tol : Rat) (rt : Rat → Rat) : Call → Env
+  | .faceShape n m => { tol, rt, shape := fun _ => if n == 0 then [0] else [n, m] }
+  | .faceEdges k => { tol, rt, flag := fun _ => true, len := fun _ => k }
+  | .faceCoplanar p0 p1 p2 p3 =>
+      { tol, rt, flag := fun _ => true,
+        vec := fun n => if n == "points[0]" then p0 else if n == "points[1]" then p1
+                        else if n == "points[2]" then p2 else p3 }
+  | .faceAddEdge c => { tol, rt, rat := nm "corner" c }
+  | .faceProjectEdge c => { tol, rt, rat := nm "corner" c }
+  | .faceRemoveEdges cs => { tol, rt, ints := fun _ => cs }
+  | .pointShape dims => { tol, rt, shape := fun _ => dims }
+  | .arrayShape n m => { tol, rt, shape := fun _ => if n == 0 then [0] else [n, m] }
+  | .sideVertices k => { tol, rt, len := fun _ => k }
+  | .opAddSideEdge c => { tol, rt, rat := nm "corner_idx" c }
+  | .opProjectCorner c => { tol, rt, rat := nm "corner" c }
+  | .opProjectEdge c1 c2 => { tol, rt, rat := nm2 "corner_1" c1 "corner_2" c2 }
+  | .opChop a => { tol, rt, rat := nm "axis" a }
+  | .opUnchop a => { tol, rt, rat := nm "axis" a }
+  | .opSide side => { tol, rt, str := fun _ => side }
+  | .fromSeries k => { tol, rt, len := fun _ => k }
+  | .blockAddEdge c1 c2 => { tol, rt, rat := nm2 "corner_1" c1 "corner_2" c2 }
+  | .frameAddBeam c1 c2 => { tol, rt, rat := nm2 "corner_1" c1 "corner_2" c2 }
+  | .projectLabels n => { tol, rt, len := fun _ => n }
+  | .projectAddLabel h new => { tol, rt, len := fun _ => (mergeLabels h new).length }
+  | .lengthRatio r => { tol, rt, rat := nm "chop.length_ratio" r }
+  | .annulus c p n rin _ =>
+      { tol, rt,
+        rat := fun nme => if nme == "inner_radius" then rin else if nme == "self.inner_radius" then rin
+                          else if nme == "self.outer_radius" then rt (V3.norm2 (p - c)) else 0,
+        vec := fun nme => if nme == "normal" then n else if nme == "outer_radius_point" then p else c }
+  | .cylinder a1 a2 rp =>
+      { tol, rt, vec := fun n => if n == "axis_point_1" then a1 else if n == "axis_point_2" then a2 else rp }
+  | .frustum a1 a2 rp =>
+      { tol, rt, vec := fun n => if n == "axis_point_1" then a1 else if n == "axis_point_2" then a2 else rp }
+  | .chain _ len => { tol, rt, rat := nm "length" len }
+  | .ringContract rnew rsrc => { tol, rt, rat := nm2 "inner_radius" rnew "source.sketch_1.inner_radius" rsrc }
+  | .cylinderFill nseg => { tol, rt, rat := nm "source.sketch_1.n_segments" nseg }
+  | .loftedShape n1 n2 mids =>
+      { tol, rt, rat := nm2 "len(sketch_1.faces)" n1 "len(sketch_2.faces)" n2,
+        flag := fun n => if n == "sketch_mid is not None" then !mids.isEmpty else mids.any (· != n1) }
+  | .stackSlice axis idx _ _ _ => { tol, rt, rat := nm2 "axis" axis "index" idx }
+  | .curveParam p lo hi =>
+      { tol, rt, rat := fun n => if n == "param" then p else if n == "self.bounds[0]" then lo else hi }
+  | .polylineShape dims => { tol, rt, shape := fun _ => pyShape dims, len := fun _ => (pyShape dims).length }
+  | .polarArgs direction axis => { tol, rt, rat := nm "direction" direction, str := fun _ => axis }
+  | .rotationLink leader origin axis => { tol, rt, vec := fun _ => radiusVector rt leader origin axis }
+  | .elbowChain isDisk => { tol, rt, flag := fun _ => isDisk }
+
+/-- a 20-digit approximation of the square root for the driver (the theorems take an exact root witness instead) -/
+def rtApprox (x : Rat) : Rat :=
+  if x ≤ 0 then 0
+  else
+    let scale : Nat := 10 ^ 40
+    let n := (x * (scale : Rat)).floor.toNat
+    mkRat (Nat.sqrt n) (10 ^ 20)
+
+/-- `c20.guards <name> <rationals> <strings>`: the guards *as regenerated from the source*, evaluated on the
+    arguments of the call → `accept|reject:<Class> <state changed before the decision, joined by +, or ->` -/
+def handleGuards (args : List String) : Option String :=
+  match args with
+  | [name, rs, ss] => do
+      let r ← parseRatList? rs
+      let s ← parseList? ss
+      let c ← callOf name r s
+      let e ← entryOf c
+      let t ← CBV.Gen.c20Guards.lookup e
+      let g ← decode t
+      if wf c then
+        let res := traceStmts (envOf tolGen rtApprox c) g []
+        some (res.1.toStr ++ " " ++ (if res.2.isEmpty then "-" else "+".intercalate res.2))
+      else none
+  | _ => none
+
 def showOuts (os : List Out) : String := ",".intercalate (os.map Out.toStr)
 
 def parseGridOp? (s : String) : Option GridOp :=
@@ -653,6 +957,7 @@ def handleProj (args : List String) : Option String :=
 def handle (op : String) (args : List String) : Option String :=
   match op with
   | "c20.call" => handleCall args
+  | "c20.guards" => handleGuards args
   | "c20.grid" => handleGrid args
   | "c20.mesh" => handleMesh args
   | "c20.proj" => handleProj args
